@@ -16,6 +16,7 @@ type Locker = sync.Locker
 type Mutex struct {
 	n      sync.Mutex
 	locked bool
+	h      uint64
 }
 
 func (m *Mutex) Lock() {
@@ -23,7 +24,7 @@ func (m *Mutex) Lock() {
 		m.n.Lock()
 		return
 	}
-	vsched.Block("lock", "mutex", func() bool { return !m.locked }, func() { m.locked = true })
+	vsched.Block("lock", "mutex", &m.h, func() bool { return !m.locked }, func() { m.locked = true })
 }
 
 func (m *Mutex) TryLock() bool {
@@ -51,6 +52,7 @@ func (m *Mutex) Unlock() {
 		panic("sync: unlock of unlocked mutex")
 	}
 	m.locked = false
+	vsched.Release(&m.h)
 }
 
 // RWMutex -------------------------------------------------------------------------
@@ -59,6 +61,9 @@ type RWMutex struct {
 	n       sync.RWMutex
 	writer  bool
 	readers int
+	// happens-before hashes: hW = last writer release, hR = commutative sum of reader
+	// releases, hAll = both (what the next writer depends on). Read sections commute.
+	hW, hR, hAll uint64
 }
 
 func (m *RWMutex) Lock() {
@@ -66,7 +71,7 @@ func (m *RWMutex) Lock() {
 		m.n.Lock()
 		return
 	}
-	vsched.Block("lock", "rwmutex", func() bool { return !m.writer && m.readers == 0 }, func() { m.writer = true })
+	vsched.Block("lock", "rwmutex", &m.hAll, func() bool { return !m.writer && m.readers == 0 }, func() { m.writer = true })
 }
 
 func (m *RWMutex) Unlock() {
@@ -82,6 +87,8 @@ func (m *RWMutex) Unlock() {
 		panic("sync: Unlock of unlocked RWMutex")
 	}
 	m.writer = false
+	vsched.Release(&m.hW)
+	m.hAll = m.hW*31 + m.hR
 }
 
 func (m *RWMutex) RLock() {
@@ -89,7 +96,7 @@ func (m *RWMutex) RLock() {
 		m.n.RLock()
 		return
 	}
-	vsched.Block("rlock", "rwmutex", func() bool { return !m.writer }, func() { m.readers++ })
+	vsched.Block("rlock", "rwmutex", &m.hW, func() bool { return !m.writer }, func() { m.readers++ })
 }
 
 func (m *RWMutex) RUnlock() {
@@ -107,6 +114,8 @@ func (m *RWMutex) RUnlock() {
 		panic("sync: RUnlock of unlocked RWMutex")
 	}
 	m.readers--
+	vsched.ReleaseCommutative(&m.hR)
+	m.hAll = m.hW*31 + m.hR
 }
 
 // WaitGroup -----------------------------------------------------------------------
@@ -114,6 +123,7 @@ func (m *RWMutex) RUnlock() {
 type WaitGroup struct {
 	n sync.WaitGroup
 	c int
+	h uint64
 }
 
 func (wg *WaitGroup) Add(d int) {
@@ -122,6 +132,9 @@ func (wg *WaitGroup) Add(d int) {
 		return
 	}
 	wg.c += d
+	if d < 0 {
+		vsched.ReleaseCommutative(&wg.h)
+	}
 	if wg.c < 0 && !vsched.Aborting() {
 		panic("sync: negative WaitGroup counter")
 	}
@@ -134,7 +147,7 @@ func (wg *WaitGroup) Wait() {
 		wg.n.Wait()
 		return
 	}
-	vsched.Block("wgwait", "waitgroup", func() bool { return wg.c == 0 }, nil)
+	vsched.Block("wgwait", "waitgroup", &wg.h, func() bool { return wg.c == 0 }, nil)
 }
 
 // Once ----------------------------------------------------------------------------
@@ -143,6 +156,7 @@ type Once struct {
 	n       sync.Once
 	done    bool
 	running bool
+	h       uint64
 }
 
 func (o *Once) Do(f func()) {
@@ -151,13 +165,13 @@ func (o *Once) Do(f func()) {
 		return
 	}
 	run := false
-	vsched.Block("once", "once", func() bool { return !o.running }, func() {
+	vsched.Block("once", "once", &o.h, func() bool { return !o.running }, func() {
 		if !o.done {
 			o.running, run = true, true
 		}
 	})
 	if run {
-		defer func() { o.done, o.running = true, false }()
+		defer func() { o.done, o.running = true, false; vsched.Release(&o.h) }()
 		f()
 	}
 }
